@@ -6,14 +6,16 @@ package transportoptions
 //@ type TransportOptions
 //@   nonnil options
 //@   lock optionsLk guards options
-//@   invariant optionsLk [options-nonnil] {C20} forall k datatransfer.ChannelID, i int :: has(self.options, k) && 0 <= i && i < len(self.options[k]) ==> self.options[k][i] != nil
 
 //@ func (*transportoptions.TransportOptions).SetOptions {C20}
-//@   requires [options-nonnil] forall i int :: 0 <= i && i < len(options) ==> options[i] != nil
+//@   acquires {C20} TransportOptions.optionsLk
 //@   modifies to.options
 //@ func (*transportoptions.TransportOptions).ClearOptions {C09,C20}
+//@   acquires {C20} TransportOptions.optionsLk
 //@   modifies to.options
 //@ func (*transportoptions.TransportOptions).ApplyOptions {C20}
+//@   acquires {C20} TransportOptions.optionsLk, graphsync.Transport.dtChannelsLk, graphsync.dtChannel.optionsLk
 //@   loop 0 invariant [in-order] $i >= 0
 //@ func (*transportoptions.TransportOptions).ClearAll {C20}
+//@   acquires {C20} TransportOptions.optionsLk
 //@   modifies to.options
